@@ -511,6 +511,13 @@ pub fn fire_rete_ul_rules_with_agenda(
                 if fired_flags.contains(&rule.name) {
                     return false;
                 }
+                // A no-loop rule stays fired across calls, until its marker is removed
+                // (reset_fired_flags), as in TypedReteUlEngine
+                if rule.no_loop
+                    && facts.get(&format!("{}_fired", rule.name)).map(String::as_str) == Some("true")
+                {
+                    return false;
+                }
                 // Check if rule matches current facts
                 evaluate_rete_ul_node(&rule.node, facts)
             })
